@@ -159,30 +159,30 @@ func c10NestGen(g *G) {
 		g.Emit("c10.run o "+pl, "same-id-in-two-containers")
 	}
 
-	// every shape up to maxLeaves members that are not containers and maxConts inner containers
-	maxLeaves, maxConts := g.N(4, 6), g.N(2, 3)
+	// every shape within these bounds: per number of inner containers, the number of members that are not containers
+	// up to which C and N members are enumerated in all combinations, and up to which shapes of C members only are
+	// added (quick: 7 / 6 / 5 members per message at most; the thorough tier goes further)
+	type bound struct{ conts, mixed, contentOnly int }
+	bounds := []bound{{1, 4, 6}, {2, 2, 4}, {3, 1, 2}}
+	if g.Thorough() {
+		bounds = []bound{{1, 5, 7}, {2, 3, 5}, {3, 2, 3}}
+	}
 	type shape struct {
 		ms     []c10Tree
 		leaves int
+		conts  int
 	}
 	var shapes []shape
-	for conts := 1; conts <= maxConts; conts++ {
-		for leaves := 0; leaves <= maxLeaves; leaves++ {
-			for _, ms := range c10Shapes(leaves, conts, 3) {
+	for _, bd := range bounds {
+		for leaves := 0; leaves <= bd.contentOnly; leaves++ {
+			for _, ms := range c10Shapes(leaves, bd.conts, 3) {
 				if !c10HasContent(ms) {
 					continue // nothing to acknowledge anywhere
 				}
-				shapes = append(shapes, shape{ms, leaves})
-			}
-		}
-	}
-	// quick tier: three inner containers only as a chain / with few members (the thorough tier has all of them)
-	if !g.Thorough() {
-		for leaves := 1; leaves <= 3; leaves++ {
-			for _, ms := range c10Shapes(leaves, 3, 3) {
-				if c10HasContent(ms) {
-					shapes = append(shapes, shape{ms, leaves})
+				if leaves > bd.mixed && strings.Contains(c10Show(ms), "N") {
+					continue
 				}
+				shapes = append(shapes, shape{ms, leaves, bd.conts})
 			}
 		}
 	}
@@ -198,7 +198,7 @@ func c10NestGen(g *G) {
 		third := sp.list(sh.ms)
 		plan := []string{first, "c(u,x,u,x,u,x,u)", second, "x", third}
 		g.Emit("c10.run o "+strings.Join(plan, ";"), "nested-shape", "shape="+c10Show(sh.ms))
-		if sh.leaves <= g.N(3, 4) {
+		if sh.conts == 1 && sh.leaves <= g.N(2, 3) {
 			// and straight after each of the histories (nothing else before it)
 			for _, h2 := range c10Histories[1:] {
 				sp := &c10Speller{cs: cs, ns: ns, nc: j + 1, nn: j}
